@@ -164,7 +164,10 @@ def collision():
     # (routerID local, remote id, localAS, remoteAS): id <, >, = with AS <, >
     rel = [("lt", "10.0.0.1", "10.0.0.2", 65001, 65002), ("gt", "10.0.0.9", "10.0.0.2", 65001, 65002),
            ("eqAsGt", "10.0.0.2", "10.0.0.2", 65009, 65002), ("eqAsLt", "10.0.0.2", "10.0.0.2", 65001, 65002),
-           ("lt4", "10.0.0.1", "10.0.0.2", 4200000001, 4200000002)]
+           ("lt4", "10.0.0.1", "10.0.0.2", 4200000001, 4200000002),
+           # equal identifiers and 4-octet AS numbers on either side of AS_TRANS (23456)
+           ("eq4lt", "10.0.0.2", "10.0.0.2", 64512, 4200000000), ("eq4gt", "10.0.0.2", "10.0.0.2", 4200000000, 64512),
+           ("eq4lo", "10.0.0.2", "10.0.0.2", 100, 4200000000)]
     for rn, lid, rid, las, ras in rel:
         for first_conn in DIRS:            # which connection is opened first
             for first_open in DIRS:        # whose OPEN arrives first
@@ -1610,6 +1613,27 @@ def pm_busy():
             b.steps.append(multi(*subs))
             b.upd(ci).adv(1)
             out.append(b.tag("stop", "pmbusy", "adm").build())
+    # the held outbound connection is reset before its OPEN could be written, while the PM is disabling that FSM
+    for how in ("est", "delete", "damp"):
+        b = Sb("pmbusy-reset-%s" % how, [peer(gates=["GetCapabilities#2"]), peer("p2", "10.0.0.3", remoteAS=65003)])
+        b.start()
+        ci = b.connect()
+        b.open(ci)
+        co = b.dial_ok()
+        b.rreset(co)
+        if how == "est":
+            b.ka(ci)
+            subs = []
+        elif how == "damp":
+            b.notif(ci, 3, 1)
+            subs = []
+        else:
+            subs = [step("deletePeer", peer="p1"), step("yield")]
+        b.steps.append(multi(*(subs + [step("release", peer="p1", call="GetCapabilities", w=2)])))
+        b.adv(1)
+        c2 = b.connect("p2")
+        b.open(c2, "p2", rid="10.0.0.3").ka(c2).upd(c2).close()
+        out.append(b.tag("stop", "pmbusy", "fuzz").build())
     # two connections from the same peer at (nearly) the same time: exactly one is served, the other closed
     for rep in range(6):
         b = Sb("twoconn-%d" % rep, [peer(passive=rep % 2 == 0)])
